@@ -5,7 +5,7 @@
 (* into the abstract events SocketContract judges, using the reference     *)
 (* framing (Wire) and the reference message reading (WireMsg).             *)
 (***************************************************************************)
-EXTENDS Naturals, Sequences, FiniteSets, Wire, WireMsg
+EXTENDS Naturals, Sequences, FiniteSets, Wire, WireMsg, WireMatch
 
 F0 == [wb |-> <<>>, wd |-> <<>>, rb |-> <<>>, rdead |-> <<>>]
 
@@ -40,9 +40,13 @@ PopRx(proto, c, t, b) ==
               u  == Unframe(proto, fb)
           IN IF ~u.ok
              THEN [out |-> <<[e |-> "rxdefect", t |-> t, c |-> c, why |-> u.why]>>, b |-> <<>>, dead |-> TRUE]
-             ELSE LET ev == [e |-> "rxframe", t |-> t, c |-> c,
-                             rd |-> [hdr |-> ReadHdr(proto, u), msg |-> ReadMsg(proto, u.type, u.payload)],
-                             soft |-> SoftMsg(proto, u.type, u.payload)]
+             ELSE LET m  == ReadMsg(proto, u.type, u.payload)
+                      h  == ReadHdr(proto, u)
+                      sf == SoftMsg(proto, u.type, u.payload)
+                      ev == [e |-> "rxframe", t |-> t, c |-> c,
+                             alts |-> IF sf THEN <<[hdr |-> h, msg |-> m]>>
+                                      ELSE <<[hdr |-> h, msg |-> m], [hdr |-> h, msg |-> Gate(m)]>>,
+                             soft |-> sf]
                       r  == PopRx(proto, c, t, SubSeq(b, n + 1, Len(b)))
                   IN [out |-> <<ev>> \o r.out, b |-> r.b, dead |-> r.dead]
 
